@@ -150,7 +150,11 @@ fn gen(tier: &str, seed: u64, out: &mut dyn FnMut(String)) {
     // (ii.b) every shape of rank <= 3, len <= 3, filled so that every byte value occurs in every shape;
     //        every axis (both spellings) and the flat form, both orders (spelling rotates)
     let mut k = 0usize;
-    for s in shapes(1, 3, 1, 3) {
+    let mut scope = shapes(1, 3, 1, 3);
+    // beyond the stated rank: rank 4 (the repaired `apply_along_axis` arm)
+    scope.extend(if thorough { shapes(4, 4, 1, 2) } else { vec![vec![2, 1, 2, 2], vec![1, 2, 2, 1], vec![2, 2, 2, 2]] });
+    if thorough { scope.extend(vec![vec![2, 3, 1, 2], vec![3, 2, 2, 3], vec![1, 3, 3, 2]]); }
+    for s in scope {
         let n = prod(&s);
         let fills = (256 + n - 1) / n;
         for f in 0..fills {
@@ -257,7 +261,7 @@ fn gen(tier: &str, seed: u64, out: &mut dyn FnMut(String)) {
     let n_rand = if thorough { 20000 } else { 2500 };
     let all_orders: Vec<&str> = ORDERS_BIG.iter().chain(ORDERS_LITTLE.iter()).copied().collect();
     for i in 0..n_rand {
-        let s = rng.shape(1, 3, 5);
+        let s = if i % 5 == 4 { rng.shape(4, 4, 3) } else { rng.shape(1, 3, 5) };
         let n = prod(&s);
         let r = s.len() as i64;
         let ax = if rng.below(4) == 0 { "none".to_string() } else { rng.range(-r, r - 1).to_string() };
@@ -292,5 +296,5 @@ fn nontrivial(op: &str, args: &[&str]) -> bool {
 
 fn main() {
     harness_main(Spec { prop: "C19", gen, exec, nontrivial, hang_secs: 20,
-        rule: "exhaustive: all 256 byte values alone x 7 order spellings (absent, enum, &str, String); every shape rank<=3 len<=3 filled so that every byte value occurs, x flat form and every axis (positive and negative spelling) x both orders, unpack and pack(unpack); bit arrays of every length 1..40 (single-bit, constant, alternating, random, values>1) flat and as lanes on every axis position; count from -(8n+2) to 8n+2 flat and selected counts by axis; 21 spellings of the order option as &str and String; out-of-range axes; empty arrays; binary_repr + parse-back for all u8/i8 (all u16/i16 in thorough), boundaries and powers of two +-1 for the wider types; + seeded random arrays rank<=3 len<=5 (lane length <=20 for pack). distinct = distinct case lines; non-trivial = array with >=2 elements / |number|>=2" });
+        rule: "exhaustive: all 256 byte values alone x 7 order spellings (absent, enum, &str, String); every shape rank<=3 len<=3 (+ rank-4 shapes: 3 in quick, all of len<=2 and three of len<=3 in thorough) filled so that every byte value occurs, x flat form and every axis (positive and negative spelling) x both orders, unpack and pack(unpack); bit arrays of every length 1..40 (single-bit, constant, alternating, random, values>1) flat and as lanes on every axis position; count from -(8n+2) to 8n+2 flat and selected counts by axis; 21 spellings of the order option as &str and String; out-of-range axes; empty arrays; binary_repr + parse-back for all u8/i8 (all u16/i16 in thorough), boundaries and powers of two +-1 for the wider types; + seeded random arrays rank<=3 len<=5 and rank 4 len<=3 (lane length <=20 for pack). distinct = distinct case lines; non-trivial = array with >=2 elements / |number|>=2" });
 }
